@@ -176,6 +176,9 @@ func (s *SequencerSyncer) syncRange(
 			Slot:        int64(slot),
 		})
 	})
+	if err != nil {
+		return errors.Wrap(err, "failed to store transaction submitted events and sync status")
+	}
 	log.Info().
 		Uint64("start-block", start).
 		Uint64("end-block", end).
